@@ -9,6 +9,7 @@ INJECT = {
     "core_parse_error": {"owner": "core/src/parse/error.rs", "decl": "#[cfg(kani)]\nmod kani_h;", "src": "core_parse_error.rs", "dest": "core/src/parse/error/kani_h.rs"},
 }
 HARNESSES = {
+    "try_find_char_no_panic": {"crate": "okane-core", "inject": ["core_pretty_decimal"], "bound": "text <= 3 characters over {1, ',', x, あ(3 bytes)}; every byte offset", "timeout": 900},
     "extractor_2rules_or2_and1": {"crate": "okane", "inject": ["cli_extract"], "bound": "2 rules x <= 2 OR-elements x 1 field; symbolic matcher answers", "timeout": 1800},
     "extractor_2rules_or1_and2": {"crate": "okane", "inject": ["cli_extract"], "bound": "2 rules x 1 OR-element x <= 2 AND-fields; symbolic matcher answers", "timeout": 1800},
     "extractor_matches_statement_2rules": {"crate": "okane", "inject": ["cli_extract"], "bound": "<= 2 rules x <= 2 OR-elements x <= 2 AND-fields; symbolic matcher answers, payees/codes/accounts from {None, p1, p2}", "timeout": 1800},
